@@ -61,7 +61,7 @@ def loop_assigned(loop):
     return out
 
 
-def run_paths(ctx, fn, env0=None, this_names=("this",), include_exc=False, limit=512, rule="symexec", func_of=None):
+def run_paths(ctx, fn, env0=None, this_names=("this",), include_exc=False, limit=512, rule="symexec", func_of=None, fold=False):
     """-> list[PathResult] over all entry->(return|raise|fall-off) paths."""
     cfg = ctx.cfg(fn, rule)
     mod = getattr(fn, "_module", None)
@@ -69,8 +69,10 @@ def run_paths(ctx, fn, env0=None, this_names=("this",), include_exc=False, limit
     results = []
     skip = () if include_exc else ("exc",)
 
+    folder = (lambda node: ctx.folder.ev(node, mod)) if (fold and mod is not None) else None
+
     def mk_eval(env):
-        return Evaluator(env=env, const_of=const_of, func_of=func_of, this_names=this_names)
+        return Evaluator(env=env, const_of=const_of, func_of=func_of, this_names=this_names, fold=folder)
 
     def bind(env, target, term, ev):
         if isinstance(target, ast.Name):
